@@ -23,7 +23,6 @@
 from __future__ import annotations
 
 import logging
-import sys
 from typing import TYPE_CHECKING, Sequence
 
 from igraph import IN, Edge, OUT, Vertex, Graph
@@ -69,8 +68,6 @@ from explorerscript.ssb_converting.ssb_special_ops import (
 )
 
 logger = logging.getLogger(__name__)
-
-sys.setrecursionlimit(10000)
 
 
 class SsbGraphMinimizer:
